@@ -278,6 +278,18 @@ def observations(D, R, seed):
     mats_n = [sps.coo_matrix(B), None, sps.coo_matrix(2 * B + 1), None, sps.coo_matrix(-B)]
     obs.append(('contract_multi_none', lambda: D.contract_multi(mats_n),
                 lambda: np.array([np.sum(R * B), 0.0, np.sum(R * (2 * B + 1)), 0.0, -np.sum(R * B)])))
+    # rows / columns selected by BOOLEAN masks (as numpy indexing allows), with and without a matrix
+    mr = np.array([(i % 2 == 0) for i in range(r)])
+    mc = np.array([(j != 1) for j in range(c)])
+    obs.append(('contract_rows_mask', lambda: D.contract(B[mr, :], rows=mr), lambda: np.sum(R[mr, :] * B[mr, :])))
+    obs.append(('contract_cols_mask', lambda: D.contract(B[:, mc], cols=mc), lambda: np.sum(R[:, mc] * B[:, mc])))
+    obs.append(('contract_both_masks', lambda: D.contract(B[np.ix_(mr, mc)], rows=mr, cols=mc),
+                lambda: np.sum(R[np.ix_(mr, mc)] * B[np.ix_(mr, mc)])))
+    # element access with a scalar on one axis and a 2-D index array on the other (result has the shape of the array)
+    I2 = np.array([[0, r - 1], [r - 1, 1 % r]])
+    J2 = np.array([[c - 1, 0, 1 % c], [0, 0, c - 1]])
+    obs += [('elem_2d_rows', lambda: D[I2, 0], lambda: R[I2, 0]), ('elem_2d_cols', lambda: D[1, J2], lambda: R[1, J2]),
+            ('elem_2d_cols_neg', lambda: D[-1, J2.T], lambda: R[-1, J2.T])]
     # sparse operands WITHOUT stored entries (first, in the middle, last): they contribute 0 at their own position
     empty = sps.coo_matrix((r, c))
     for nm, lst, refl in (('first', [empty, sps.coo_matrix(B)], lambda: [0.0, np.sum(R * B)]),
